@@ -3712,16 +3712,6 @@ func (r *JournalReader) Next() (err error) {
 		return io.EOF
 	}
 
-	// Read number of frames in journal segment. Set to -1 if no-sync was set
-	// and set to 0 if the journal was not sync'd. In these two cases we will
-	// calculate the frame count based on the journal size.
-	r.frameN = int32(binary.BigEndian.Uint32(hdr[8:]))
-	if r.frameN == -1 {
-		r.frameN = int32((r.fi.Size() - int64(r.sectorSize)) / int64(r.pageSize))
-	} else if r.frameN == 0 {
-		r.frameN = int32((r.fi.Size() - r.offset) / int64(r.pageSize))
-	}
-
 	// Read remaining fields from header.
 	r.nonce = binary.BigEndian.Uint32(hdr[12:]) // cksumInit
 
@@ -3745,9 +3735,30 @@ func (r *JournalReader) Next() (err error) {
 		if pageSize == 0 {
 			pageSize = r.pageSize
 		}
+
+		// A database whose first transaction was interrupted has no pages yet
+		// and therefore no page size of its own: take it from the journal.
+		if r.pageSize == 0 {
+			r.pageSize = pageSize
+		}
 		if pageSize != r.pageSize {
 			return fmt.Errorf("journal header page size (%d) does not match database (%d)", pageSize, r.pageSize)
 		}
+	}
+
+	// Without a page size the records cannot be located.
+	if r.pageSize == 0 {
+		return io.EOF
+	}
+
+	// Read number of frames in journal segment. Set to -1 if no-sync was set
+	// and set to 0 if the journal was not sync'd. In these two cases we will
+	// calculate the frame count based on the journal size.
+	r.frameN = int32(binary.BigEndian.Uint32(hdr[8:]))
+	if r.frameN == -1 {
+		r.frameN = int32((r.fi.Size() - int64(r.sectorSize)) / int64(r.pageSize))
+	} else if r.frameN == 0 {
+		r.frameN = int32((r.fi.Size() - r.offset) / int64(r.pageSize))
 	}
 
 	// Exit if file doesn't have more than the initial sector.
